@@ -1098,6 +1098,35 @@ func (p *pkgCtx) schedMode(mut map[string]bool) {
 			p.rep.SyncImports++
 		}
 	}
+	// ---- finalizers: the runtime runs them on a goroutine of its own, outside the controlled scheduler (an instrumented
+	// access made from there would park a thread the scheduler does not know). Under the scheduler variants
+	// runtime.SetFinalizer becomes a no-op (vxsched.SetFinalizer); what finalizers do to objects that stay in use is the
+	// business of the lifetime scenarios, which run on the uninstrumented build.
+	for _, f := range p.files {
+		f := f
+		ast.Inspect(f, func(n ast.Node) bool {
+			call, ok := n.(*ast.CallExpr)
+			if !ok {
+				return true
+			}
+			sel, ok := call.Fun.(*ast.SelectorExpr)
+			if !ok || sel.Sel.Name != "SetFinalizer" {
+				return true
+			}
+			id, ok := sel.X.(*ast.Ident)
+			if !ok {
+				return true
+			}
+			if pn, ok := p.info.Uses[id].(*types.PkgName); !ok || pn.Imported().Path() != "runtime" {
+				return true
+			}
+			e := p.edits[f]
+			e.repl = append(e.repl, [3]interface{}{p.fset.Position(sel.Pos()).Offset, p.fset.Position(sel.End()).Offset, "vxsched.SetFinalizer"})
+			e.used = true
+			p.insert(f.End(), "\nvar _ = "+id.Name+".KeepAlive\n")
+			return true
+		})
+	}
 	// ---- imports for edited files + registration of globals
 	for f, e := range p.edits {
 		if !e.used {
